@@ -496,7 +496,9 @@ func VerifSysMalformed() {
 		foreignForA = true
 		vstub.Cover("foreign-head-for-A")
 	case 0:
-		payload = vstub.NdBytes("raw", 3)
+		// every byte string of 0..3 bytes (the LENGTH is a decision too: a decoder that
+		// looks at a fixed offset before checking the length fails on the short ones)
+		payload = vstub.NdBytes("raw", vstub.NdChoice("raw-len", 4))
 		vstub.Cover("raw-bytes")
 	case 1:
 		payload, err = json.Marshal(&sysIllTyped{Address: 7, Heads: "x"})
